@@ -40,21 +40,30 @@ def mapping_listing(a):
     return out
 
 
-def run_la_impl(hist, member_names=False):
+def run_la_impl(hist, member_names=False, recycle_lists=False):
     """-> (number of calls accepted before the first rejection, error family or None, {layer: [identifiers]} in order)
     member_names: module names and patterns are passed as StrMember objects (equal to, and hashing like, the plain strings)
-    and the definition is read through the mapping instead of its text"""
+    and the definition is read through the mapping instead of its text
+    recycle_lists: the caller owns ONE list object, refills it for every list call and scribbles over it after the call
+    returned - what was supplied is what the list held at the time of the call"""
     LA, _ = impl()
     a = LA()
     k = 0
     fam = None
     w = StrMember if member_names else (lambda x: x)
+    buf = []
     for c in hist:
         try:
             if c[0] == "layer":
                 a = chain(a.layer(c[1]), "layer")
             elif c[0] == "str":
                 a = chain(a.containing_modules(w(c[1])), "containing_modules")
+            elif c[0] == "list" and recycle_lists:
+                buf[:] = [w(x) for x in c[1]]
+                try:
+                    a = chain(a.containing_modules(buf), "containing_modules")
+                finally:
+                    buf[:] = ["scribble_%d" % i for i in range(len(buf) + 1)]
             elif c[0] == "list":
                 a = chain(a.containing_modules([w(x) for x in c[1]]), "containing_modules")
             elif c[0] == "regex":
@@ -236,13 +245,19 @@ LR_CODE = {"layers_that": 1, "should": 4, "should_only": 5, "should_not": 6, "ac
            "access_layers_except_layers_that": 9, "be_accessed_by_layers_except_layers_that": 10, "access_any_layer": 11, "be_accessed_by_any_layer": 12}
 
 
-def run_lr_impl(hist, arch_eval, shared_layered_arch=None):
-    """shared_layered_arch: a LayeredArchitecture object built earlier and used by several rules (the documented usage)."""
+def run_lr_impl(hist, arch_eval, shared_layered_arch=None, la_cache=None):
+    """shared_layered_arch: a LayeredArchitecture object built earlier and used by several rules (the documented usage).
+    la_cache: dict definition -> LayeredArchitecture object; equal definitions then share ONE object across the rules of a case"""
     _, LR = impl()
     r = LR()
     try:
         for c in hist:
-            if c[0] == "based_on":
+            if c[0] == "based_on" and la_cache is not None and shared_layered_arch is None:
+                key = repr(c[1])
+                if key not in la_cache:
+                    la_cache[key] = build_arch(c[1])
+                r = chain(r.based_on(la_cache[key]), "based_on")
+            elif c[0] == "based_on":
                 r = chain(r.based_on(shared_layered_arch if shared_layered_arch is not None else build_arch(c[1])), "based_on")
             elif c[0] == "named":
                 r = chain(r.are_named(c[1]), "are_named")
@@ -294,6 +309,9 @@ def enc_lr_history(lenc: LEnc, hist):
     return out
 
 
+_SHARE = [0]
+
+
 def eval_layer_histories(nodes, edges, hists, mode="direct", limit=None):
     """-> list of (impl outcome, model outcome) for LayerRule histories on one graph."""
     enc = rules.Enc()
@@ -313,8 +331,11 @@ def eval_layer_histories(nodes, edges, hists, mode="direct", limit=None):
     if res is None or res == common.SX_ERR or wres is None or wres == common.SX_ERR:
         raise RuntimeError("model rejected layer case " + common.sx_dump(wire)[:300])
     out = []
+    la_cache = {}
+    _SHARE[0] += 1
     for h, m, mw in zip(hists, res, wres):
-        io = run_lr_impl(h, arch)
+        # in every other case all rules with the same layer definition are based on ONE LayeredArchitecture object
+        io = run_lr_impl(h, arch, la_cache=la_cache if _SHARE[0] % 2 == 0 else None)
         mo = lenc.dec_loutcome(m)
         if mw == [9]:
             mo = ("ERR", "model: worklist loop ran out of fuel")
